@@ -37,4 +37,8 @@ let () =
   (* process <style 1|2|3> <hexcwd> <hexwd> <hexdata>: keys and success flag for one dependency file *)
   register "process" (function [st; cwd; wd; d] ->
       let (keys, ok) = process_discovered (style_of st) (bytes_of_hex cwd) (bytes_of_hex wd) [Some (bytes_of_hex d)] in
+      b2s ok ^ " " ^ field_of_list keys | _ -> "ERR args");
+  (* the dependency-info glue as it was before /repo commit ba34c0a (operands verbatim as keys) *)
+  register "process_depinfo_v0" (function [d] ->
+      let (keys, ok) = process_depinfo_v0 (bytes_of_hex d) in
       b2s ok ^ " " ^ field_of_list keys | _ -> "ERR args")
